@@ -45,6 +45,8 @@ type Found struct {
 	Hist     []model.Op
 	V        drv.Violation
 	OpKind   string
+	Raw      []byte // special checks: self-contained replay data
+	Note     string
 }
 
 // Report is the outcome of an exploration.
